@@ -203,7 +203,7 @@ func registerCoins(P *Program) {
 		it.panicIf(coinsAnyNeg(r), "negative coin amount")
 		for d, v := range r.Amt {
 			if s, ok := v.(*Sym); ok {
-				r.Amt[d] = &Sym{S: SInt, T: s.T, Bits: s.Bits, NonNeg: true}
+				r.Amt[d] = withRange(s, zero0, nil)
 			}
 		}
 		return r
